@@ -33,6 +33,8 @@ fn params(pairs: &[(&str, u64)]) -> BTreeMap<String, u64> {
 fn name_specs(specs: &mut Vec<EnumSpec>, round: u64) {
     for (i, s) in specs.iter_mut().enumerate() {
         s.name = format!("En{}x{:04}", round, i);
+        // three quarters of the programs share the type name `En` (each in its own module)
+        s.rust_name = if i % 4 == 0 { String::new() } else { "En".to_string() };
     }
 }
 
@@ -63,6 +65,7 @@ pub fn string_cfg(id: &str) -> GenCfg {
         ci_heavy: false,
         idents: vec![],
         sync_only: false,
+        dup_names: false,
     };
     match id {
         // a prefix is a print-side feature; the parser must ignore it (inputs include prefix + spelling)
@@ -152,6 +155,9 @@ pub fn plan(id: &str, tier: &str, seed: u64, round: u64) -> Plan {
                         c.allow_transparent = false;
                     }
                     // some programs parse through the phf map (field-less, Clone)
+                    if i % 7 == 3 {
+                        c.idents = vec!["r#type".to_string(), "r#match".to_string()];
+                    }
                     if i % 6 == 1 {
                         // the phf map is a static: its values must be const-constructible, i.e. field-less
                         c.allow_fields = false;
@@ -185,6 +191,7 @@ pub fn plan(id: &str, tier: &str, seed: u64, round: u64) -> Plan {
             cfg.allow_default_with = false;
             cfg.const_into_str = true;
             cfg.min_variants = 1;
+            cfg.dup_names = true;
             let mut specs: Vec<EnumSpec> = (0..n)
                 .map(|i| {
                     let mut c = cfg.clone();
@@ -351,6 +358,14 @@ pub fn plan(id: &str, tier: &str, seed: u64, round: u64) -> Plan {
                 .map(|i| {
                     let mut c = cfg.clone();
                     c.parse_err = Some(i % 3 != 2);
+                    if i % 5 == 1 {
+                        // through the phf map: the error function still runs only for rejected inputs
+                        c.allow_fields = false;
+                        c.allow_generics = false;
+                        c.allow_default = false;
+                        c.sync_only = true;
+                        c.phf = true;
+                    }
                     let mut s = gen::gen_string(&mut rg, &c);
                     // C18's domain has no (effective) default variant: a `default` variant may only
                     // appear disabled, where it must not act as a catch-all
@@ -366,7 +381,7 @@ pub fn plan(id: &str, tier: &str, seed: u64, round: u64) -> Plan {
             Plan {
                 specs,
                 params: params(&[("cases", if thorough { 5000 } else { 1000 }), ("max_flip_letters", if thorough { 10 } else { 8 })]),
-                strum_features: vec!["derive".into()],
+                strum_features: vec!["derive".into(), "phf".into()],
                 profiles: vec!["dev"],
                 policy: Policy::TaggedOnly,
                 rule: "programs: C01's domain without default variants; two thirds declare parse_err_ty/parse_err_fn (the emitted function counts its calls and stores its argument), one third does not. Oracle: model match => Ok and the call counter did not move; otherwise Err(e) with e carrying the caller's input byte for byte and the counter moved by exactly one, for from_str and try_from; FromStr::Err / TryFrom::Error are pinned by type ascription on a tagged line (a compile error there is a violation); without the attributes the error is ParseError::VariantNotFound. Non-trivial as C01.".into(),
@@ -504,7 +519,7 @@ pub fn plan(id: &str, tier: &str, seed: u64, round: u64) -> Plan {
                 specs,
                 params: params(&[("depth", if thorough { 5 } else { 4 }), ("cases", if thorough { 10000 } else { 600 }), ("exhaustive_max_n", 4)]),
                 strum_features: vec!["derive".into()],
-                profiles: vec!["dev"],
+                profiles: vec!["dev", "rel"],
                 policy: Policy::TaggedOnly,
                 rule: "programs: field-less enums deriving EnumTable with 1..8 enabled variants, 0..3 disabled ones anywhere, identifiers with digits / acronyms / underscores / keyword look-alikes. Oracle: a Vec model indexed by position in the enabled list. Constructors: new(10, 11, ..)[k_i] == 10 + i, filled, from_closure with an injective function of the key (never called with a disabled key), transform with f(k, v) = 100 * index(k) + v (source untouched), all() over EVERY Some/None mask and all_ok() over EVERY Ok/Err mask with distinct error payloads (first Err in declaration order), indexing / index_mut with each disabled variant must panic. Histories: ALL write / snapshot / compare sequences up to the stated length over all keys x values {0,1,2} for n <= 4 (after every write the whole table is read back), then proptest histories of length < 48 for every n. Non-trivial = history writing >= 2 distinct keys with distinct values, every mask; distinct by (program, history / mask).".into(),
                 assumptions: vec!["table API is used through the names predicted by the model on tagged lines".into()],
